@@ -136,7 +136,12 @@ class InitialOrbitDetermination(ABC):
         Returns:
             ``bool``: whether or not obs are from the same pass
         """
-        sma = getSemiMajorAxis(norm(ob1_eci[:3]), norm(ob1_eci[3:]))
+        if len(ob1_eci) >= 6:
+            sma = getSemiMajorAxis(norm(ob1_eci[:3]), norm(ob1_eci[3:]))
+        else:
+            # Position only (all a radar observation provides): the circular orbit through it, as a
+            # first approximation. With a missing velocity the vis-viva relation gives half the radius.
+            sma = norm(ob1_eci[:3])
         period = getPeriod(sma)
         transit_time = (ob2_jdate - ob1_jdate) * DAYS2SEC
         if transit_time >= period:
